@@ -176,6 +176,26 @@ def _inproc(ctx, case, nc, pristine):
         return
     if a != src:
         ctx.distinct((case["seed"], "repeat"))
+    # leftovers of an earlier run at the output path (a longer file with other content) must not show
+    with tempfile.TemporaryDirectory(dir=os.path.join(load.VERIF, ".work")) as d:
+        ip = os.path.join(d, "in.cfg")
+        with open(ip, "w", encoding="utf-8", newline="") as f:
+            f.write(src)
+        stale = os.path.join(d, "stale.cfg")
+        with open(stale, "w", encoding="utf-8", newline="") as f:
+            f.write(src + src + "enable password LeftOverFromEarlierRun\n ip address 10.9.8.7 255.255.255.0\n")
+        M.build_anonymizer(nc, opts, feats).anonymize_file(ip, os.path.join(d, "fresh.cfg"))
+        M.build_anonymizer(nc, opts, feats).anonymize_file(ip, stale)
+        with open(os.path.join(d, "fresh.cfg"), "rb") as f:
+            fb = f.read()
+        with open(stale, "rb") as f:
+            sb = f.read()
+    ctx.count("output_comparisons")
+    ctx.count("stale_output_path_comparisons")
+    if fb != sb:
+        ctx.violation(case, "depends-on-leftover-output-file", "writing over an existing (longer) output file gives %d bytes, a fresh path %d: %s"
+                      % (len(sb), len(fb), first_diff(fb.decode("utf-8", "replace"), sb.decode("utf-8", "replace"))))
+        return
     if case.get("pristine_check"):
         res, err = run_driver({"target": {"opts": opts, "feats": feats, "text": src, "repeat": 1}, "history": []}, 0)
         ctx.count("child_processes")
@@ -263,6 +283,11 @@ def _cli(ctx, case, nc):
         with open(os.path.join(d, "in.cfg"), "w", encoding="utf-8", newline="") as f:
             f.write(src)
         for k, hs in enumerate(case["hashseeds"]):
+            if k % 2:
+                # an earlier run left a (longer) file at the output path
+                with open(os.path.join(d, "o%d.cfg" % k), "w", encoding="utf-8", newline="") as f:
+                    f.write(src + src + "snmp-server community LeftOverCommunity ro\n")
+                ctx.count("stale_output_path_comparisons")
             argv = ["-i", os.path.join(d, "in.cfg"), "-o", os.path.join(d, "o%d.cfg" % k), "-s", opts["salt"], "-a", "-p",
                     "-w", ",".join(opts["words"]), "-n", ",".join(opts["asns"]), "--preserve-host-bits", str(B)]
             p = c02.run_cli(argv, hs)
@@ -275,11 +300,12 @@ def _cli(ctx, case, nc):
                 ctx.violation(case, "cli-failed", "rc=%s %s" % (p.returncode, p.stderr[-500:]))
                 return
     ctx.ev()
-    for hs, o in outs[1:]:
+    for k, (hs, o) in enumerate(outs[1:], 1):
         ctx.count("output_comparisons")
         if o != outs[0][1]:
-            ctx.violation(case, "depends-on-hash-seed:cli", "netconan under PYTHONHASHSEED=%d and %d writes different bytes: %s"
-                          % (outs[0][0], hs, first_diff(outs[0][1].decode("utf-8", "replace"), o.decode("utf-8", "replace"))))
+            ctx.violation(case, "depends-on-hash-seed-or-leftover-output-file:cli" if k % 2 else "depends-on-hash-seed:cli",
+                          "netconan under PYTHONHASHSEED=%d and %d%s writes different bytes: %s"
+                          % (outs[0][0], hs, " (onto an existing longer output file)" if k % 2 else "", first_diff(outs[0][1].decode("utf-8", "replace"), o.decode("utf-8", "replace"))))
             return
     ctx.distinct((case["seed"], "cli"))
 
@@ -300,6 +326,13 @@ def _cli_dir(ctx, case, nc):
             with open(os.path.join(d, "in", n), "w", encoding="utf-8", newline="") as f:
                 f.write(text)
         for k, hs in enumerate(case["hashseeds"]):
+            if k % 2:
+                # an earlier run left its (longer) files in the output directory
+                os.makedirs(os.path.join(d, "o%d" % k, "sub"))
+                for n in ("a.cfg", "c.cfg", "sub/e.cfg"):
+                    with open(os.path.join(d, "o%d" % k, n), "w", encoding="utf-8", newline="") as f:
+                        f.write("enable password LeftOverFromEarlierRun\n" * 400)
+                ctx.count("stale_output_path_comparisons")
             argv = ["-i", os.path.join(d, "in"), "-o", os.path.join(d, "o%d" % k), "-s", opts["salt"], "-a", "-p", "-w", ",".join(opts["words"])]
             p = c02.run_cli(argv, hs)
             ctx.count("child_processes")
@@ -313,14 +346,15 @@ def _cli_dir(ctx, case, nc):
                     tree[n] = None
             outs.append((hs, tree, p.returncode))
     ctx.ev()
-    for hs, tree, rc in outs[1:]:
+    for k, (hs, tree, rc) in enumerate(outs[1:], 1):
         ctx.count("output_comparisons")
         if tree != outs[0][1]:
             n = next(x for x in names if tree[x] != outs[0][1][x])
             a = (outs[0][1][n] or b"").decode("utf-8", "replace")
             b = (tree[n] or b"").decode("utf-8", "replace")
-            ctx.violation(case, "depends-on-hash-seed:cli-directory", "netconan on a directory under PYTHONHASHSEED=%d and %d: %s differs: %s"
-                          % (outs[0][0], hs, n, first_diff(a, b)))
+            ctx.violation(case, "depends-on-hash-seed-or-leftover-output-file:cli-directory" if k % 2 else "depends-on-hash-seed:cli-directory",
+                          "netconan on a directory under PYTHONHASHSEED=%d and %d%s: %s differs: %s"
+                          % (outs[0][0], hs, " (into a directory holding an earlier run's files)" if k % 2 else "", n, first_diff(a, b)))
             return
     ctx.distinct((case["seed"], "cli-dir"))
 
